@@ -165,6 +165,9 @@ ECLS_ALL = ECLS_DU + ["OtherLink", "OtherLink2", "TwoEndedLink"]
 ECLS_X = ECLS_ALL + ["DuckLink", "OtherLink~"]
 # + classes sharing their __name__ with another class, and a class with callable instances
 VCLS_X = VCLS_MIX + ["Vertex~", "VSub~", "VDirLess", "VRecord", "ClusterVertex"]
+# ... plus a class that files its attributes outside the instance dictionary (not for the renderers that discover
+# attributes through dir(): what is in the bag is invisible to them by construction)
+VCLS_XB = VCLS_X + ["VBag"]
 
 
 def features(spec) -> set:
